@@ -47,7 +47,7 @@ def py_int_of_str(I, node, s, st):
         signed = z3.And([z3.Or(c0 == 45, c0 == 43)] + [is_digit(c) for c in s.chars[1:]]) if n > 1 else z3.BoolVal(False)
         for st1, b in I.split(st, plain):
             if b:
-                yield st1, SInt(digits_value(s.chars))
+                yield st1, SInt(digits_value(s.chars), digits=list(s.chars))
                 continue
             for st2, b2 in I.split(st1, signed):
                 if b2:
@@ -153,6 +153,18 @@ def to_str_value(I, node, v, st):
         return
     if isinstance(v, SStr):
         yield st, v
+    elif isinstance(v, SInt) and v.digits and SInt(v.e).conc() is None:
+        # str(int(digits)): the digits without leading zeros (L9: formatting inverts parsing)
+        def strip0(cs, st):
+            if len(cs) == 1:
+                yield st, SStr(chars=cs)
+                return
+            for st1, b in I.split(st, cs[0] != 48):
+                if b:
+                    yield st1, SStr(chars=cs)
+                else:
+                    yield from strip0(cs[1:], st1)
+        yield from strip0(list(v.digits), st)
     elif isinstance(v, SInt):
         yield st, int_to_str(v.e, I)
     elif isinstance(v, SBool):
@@ -234,6 +246,8 @@ def _assemble(I, node, pieces, st, acc=None):
             gen = int_to_str_padded(I, st, x, width)
         elif width:
             raise EngineLimit('space padded int format')
+        elif isinstance(v, SInt) and v.digits:
+            gen = to_str_value(I, node, v, st)
         else:
             gen = [(st, int_to_str(x, I))]
         for st1, s in gen:
@@ -320,6 +334,25 @@ def str_format(I, node, fmt, args, kwargs, st):
 
 
 # -------------------------------------------------------------------------------------
+def _group_subpatterns(R):
+    import re._constants as sc
+    out = {}
+
+    def walk(items):
+        for op, av in items:
+            if op == sc.SUBPATTERN:
+                if av[0] is not None:
+                    out[av[0]] = list(av[3])
+                walk(list(av[3]))
+            elif op in (sc.MAX_REPEAT, sc.MIN_REPEAT):
+                walk(list(av[2]))
+            elif op == sc.BRANCH:
+                for a in av[1]:
+                    walk(list(a))
+    walk(R.core)
+    return out
+
+
 def has_group_model(rgx):
     from .contract import GROUP_MODELS
     return rgx.name in GROUP_MODELS or rgx.pattern in GROUP_MODELS
@@ -354,45 +387,69 @@ def regex_search(I, node, rgx, val, st, anchored_match=False):
                     st1.assume(z3.Length(g0.expr) >= 1)
                     yield st1, SMatch(g0)
             return
-        if not anch:
-            raise EngineLimit('unanchored search with a compound pattern')
-        if R.ngroups and has_group_model(rgx):
-            from . import contracts_rt as C
-            yield from C.regex_groups_search(I, node, rgx, R, val, st)
-            return
-        # anchored at start: candidates are prefixes
-        ends = list(range(n + 1))
-        mj = {}
-        for j in ends:
-            if R.anch_end:
-                if j == n:
-                    mj[j] = R.vec_match(val.chars, 0, j)
-                elif j == n - 1:
-                    mj[j] = z3.And(val.chars[n - 1] == 10, R.vec_match(val.chars, 0, j))
-                else:
-                    mj[j] = z3.BoolVal(False)
-            else:
-                mj[j] = R.vec_match(val.chars, 0, j)
-        E = z3.simplify(z3.Or([mj[j] for j in ends]))
-        for st1, b in I.split(st, E):
-            if not b:
-                yield st1, NONE
-                continue
-            I.trusted.add('R2: backtracking search of %r returns the whole string when the whole string matches' % rgx.pattern)
-            for j in ends:
-                cond = mj[j]
-                if j != n:
-                    cond = z3.And(cond, z3.Not(mj[n]))   # R2
-                for st2, b2 in I.split(st1.fork(), cond):
-                    if b2:
-                        yield st2, SMatch(SStr(chars=val.chars[:j]))
+        # exact ordered-choice semantics of the backtracking engine on a vector string
+        starts = [0] if anch else list(range(n + 1))
+        paths = []
+        for s0 in starts:
+            for conds, end, groups in rxmod.backtrack_paths(R, val.chars, s0, R.anch_end):
+                paths.append((s0, conds, end, groups))
+        earlier = []
+        rest = st
+        for (s0, conds, end, groups) in paths:
+            c = z3.And(conds) if len(conds) > 1 else (conds[0] if conds else z3.BoolVal(True))
+            st_i = rest.fork()
+            st_i.pc.append(c)
+            if I.feasible(st_i.pc):
+                gv = {}
+                for gid in range(1, R.ngroups + 1):
+                    if gid in groups:
+                        a, b = groups[gid]
+                        gv[gid] = SStr(chars=val.chars[a:b])
+                    else:
+                        gv[gid] = NONE
+                for nm, gid in R.groupdict.items():
+                    gv[nm] = gv[gid]
+                yield st_i, SMatch(SStr(chars=val.chars[s0:end]), gv)
+            rest.pc.append(z3.Not(c))
+            if not I.feasible(rest.pc):
+                return
+        yield rest, NONE
         return
     # native string
     e = val.expr
     core = R.z3re()
-    if R.ngroups and has_group_model(rgx):
-        from . import contracts_rt as C
-        yield from C.regex_groups_search(I, node, rgx, R, val, st)
+    if R.ngroups and anch:
+        # capture groups on a string of unknown length: complete split on its length; lengths 0..K are
+        # handled exactly on code-point vectors, the residual (len > K) by an over-approximation
+        # (any groups within their own sub-languages) - sound for exception freedom only
+        K = getattr(I, 'vectorize_k', 16)
+        for k in range(K + 1):
+            st_k = st.fork()
+            cs = [I.fresh('rx.c%d' % j, z3.IntSort()) for j in range(k)]
+            vec = SStr(chars=cs)
+            for c in cs:
+                st_k.pc.append(z3.And(c >= 0, c <= MAXCP))
+            st_k.pc.append(e == vec.z())
+            if I.feasible(st_k.pc):
+                yield from regex_search(I, node, rgx, vec, st_k, anchored_match)
+        st_r = st
+        st_r.pc.append(z3.Length(e) > K)
+        if not I.feasible(st_r.pc):
+            return
+        I.trusted.add('regex %s on texts longer than %d characters: capture groups over-approximated (each group any string of its own sub-pattern, or None)' % (rgx.name or rgx.pattern, K))
+        st_n = st_r.fork()
+        yield st_n, NONE
+        gv = {}
+        subs = _group_subpatterns(R)
+        for gid in range(1, R.ngroups + 1):
+            g = I.fresh('grp%d' % gid, z3.StringSort())
+            isn = I.fresh('grp%d.none' % gid, z3.BoolSort())
+            if gid in subs:
+                st_r.pc.append(z3.Or(isn, z3.InRe(g, R.z3re(subs[gid]))))
+            gv[gid] = SIte(isn, NONE, SStr(expr=g))
+        for nm, gid in R.groupdict.items():
+            gv[nm] = gv[gid]
+        yield st_r, SMatch(SStr(expr=I.fresh('g0', z3.StringSort())), gv)
         return
     if anch:
         if R.anch_end:
@@ -499,6 +556,12 @@ def call_builtin(I, node, f, args, kwargs, st):
                 yield st, SInt(len(o.items))
             elif isinstance(o, HSeq):
                 yield st, SInt(z3.Length(o.e))
+            elif type(o).__name__ == 'HPieces':
+                from . import pieces
+                yield st, SInt(pieces.length(I, st, o))
+            elif isinstance(o, HSplit):
+                from . import contracts_rt as C
+                yield from C.split_len(I, o, st)
             elif isinstance(o, HObj) and o.cls.startswith('opaque:'):
                 yield from I.call_opaque(node, SFunc('opaque', o.cls[7:] + '.__len__', selfv=v), [], {}, st)
             elif isinstance(o, HObj):
@@ -653,6 +716,10 @@ def str_method(I, node, s, meth, args, kwargs, st):
         yield from str_format(I, node, s, args, kwargs, st)
         return
     if meth == 'join':
+        if isinstance(args[0], Ref) and type(st.heap[args[0].addr]).__name__ == 'HPieces':
+            from . import pieces
+            yield st, pieces.join(I, st, s, st.heap[args[0].addr])
+            return
         items = I.concrete_iter(st, args[0])
         if items is None:
             from . import contracts_rt as C
